@@ -253,11 +253,14 @@ func (n *AbsfsNFS) GetAttrCacheSize() int {
 
 // Close releases resources and stops any background processes
 func (n *AbsfsNFS) Close() error {
-	// Stop the server if Export() created one
+	// Stop the server if Export() created one. The lock is held across Stop so that a
+	// concurrent Close or Unexport returns only once the server has really stopped.
+	n.exportMu.Lock()
 	if n.exportServer != nil {
 		n.exportServer.Stop()
 		n.exportServer = nil
 	}
+	n.exportMu.Unlock()
 
 	// Stop worker pool
 	if n.workerPool != nil {
